@@ -93,6 +93,7 @@ def _check_handler(r, idx, fi, h):
                          for g in guards)
         if p.leaf.kind != 'raise' and _delegates_to_raising_helper(idx, fi, p):
             r.undecided(construct, 'the handler delegates to a helper that always raises; its contract is not analysed inline', where)
+            kinds.add('delegated')
             continue
         if p.leaf.kind != 'raise':
             r.violation(construct, 'a path through the handler %s instead of raising (guards: %s): the failure is '
@@ -187,6 +188,10 @@ def _check_handler(r, idx, fi, h):
             else:
                 r.violation(construct + ' [generic]', 'the generic error message does not mention what was submitted '
                             '(no data dependence on student_input)', where, found=short(msg))
+        elif not _known_exc_class(idx, module, exc):
+            # `raise make(error)` / `raise getattr(self, name)(error)` / `raise next(...)(error)`: what is raised is computed
+            r.undecided(construct + ' [raise]', 'the raised object `%s` is computed, not an exception class applied here' % short(exc), where)
+            kinds.add('computed')
         else:
             r.violation(construct + ' [raise %s]' % cname, 'a non-library exception class %s is raised from the handler' % cname,
                         where, expected='subclass of MITxError', found=cname)
@@ -194,7 +199,30 @@ def _check_handler(r, idx, fi, h):
         for need, what in (('same-class', 'no path re-raises library errors with their own class (error.__class__)'),
                            ('generic', 'no path replaces unanticipated failures by StudentFacingError')):
             if need not in kinds:
-                r.violation(construct, what, lib.loc(fi, h))
+                if 'computed' in kinds or 'delegated' in kinds:
+                    r.undecided(construct, what + ' -- among the paths that could be read; another path raises a computed object', lib.loc(fi, h))
+                else:
+                    r.violation(construct, what, lib.loc(fi, h))
+
+
+def _known_exc_class(idx, module, exc):
+    """The operand of a raise names an exception class directly (builtin or resolvable in the package)."""
+    import builtins
+    f = exc.func if isinstance(exc, ast.Call) else exc
+    if isinstance(f, ast.Attribute) and isinstance(f.value, ast.Name):
+        name = f.attr
+    elif isinstance(f, ast.Name):
+        name = f.id
+    else:
+        return False
+    b = getattr(builtins, name, None)
+    if isinstance(b, type) and issubclass(b, BaseException):
+        return True
+    try:
+        q = idx.resolve_name(module, name)
+    except Exception:
+        return False
+    return isinstance(q, tuple) and bool(q) and q[0] == 'class'
 
 
 def _delegates_to_raising_helper(idx, fi, path):
@@ -1064,9 +1092,49 @@ def d6_numpy_state(ctx, idx):
                    and isinstance(g.left, ast.Constant)]
             if pos:
                 got[pos[-1].left.value] = nf.exc_class_name(p.leaf.expr)
+        got_next = _np_error_next(idx, h)
+        if got_next:
+            for k_, v_ in got_next.items():
+                got.setdefault(k_, v_)
+        # a raise whose operand is a local (chosen by a table lookup, next(...), a dict) is not read by the paths above
+        computed = [x for x in lib.raises_of(h.node) if isinstance(x.exc, ast.Name) and not _known_exc_class(idx, h.module, x.exc)]
         for k, v in want.items():
+            if k not in got and computed:
+                r.undecided("handle_np_floating_errors: '%s'" % k, 'the class raised is computed (`%s`): which class a %r message '
+                            'leads to is not decided' % (short(lib.enclosing_stmt(computed[0])), k), h.loc)
+                continue
             r.check(got.get(k) == v, "handle_np_floating_errors: '%s'" % k, v,
                     "'%s' errors raise %s instead of %s" % (k, got.get(k), v), h.loc, expected=v, found=str(got.get(k)))
+
+
+def _np_error_next(idx, h):
+    """`cls = next((c for frag, c in TABLE if frag in err), None); ...; raise cls` with TABLE a literal of pairs: the first-match
+    chain the normaliser's reduce_table_next makes of it -> {frag: class name}; None when the function has no such shape."""
+    import types
+    from .. import normalize
+    from ..index import clone
+    fn = clone(h.node)
+    shim = types.SimpleNamespace(node=fn, module=h.module, cls=None, qualname=h.qualname)
+    try:
+        if not normalize.reduce_table_next(idx, shim):
+            return None
+    except Exception:
+        return None
+    errp = h.params[0]
+    raised = {x.exc.id for x in ast.walk(fn) if isinstance(x, ast.Raise) and isinstance(x.exc, ast.Name)}
+    out = {}
+    for n in ast.walk(fn):
+        if isinstance(n, ast.Assign) and len(n.targets) == 1 and isinstance(n.targets[0], ast.Name) and n.targets[0].id in raised:
+            e = n.value
+            while isinstance(e, ast.IfExp):
+                t = e.test
+                if not (isinstance(t, ast.Compare) and len(t.ops) == 1 and isinstance(t.ops[0], ast.In) and isinstance(t.left, ast.Constant)
+                        and isinstance(t.comparators[0], ast.Name) and t.comparators[0].id == errp):
+                    return None
+                if t.left.value not in out:
+                    out[t.left.value] = nf.exc_class_name(e.body)
+                e = e.orelse
+    return out or None
 
 
 def _np_error_table(idx, h):
